@@ -613,6 +613,31 @@ func (c *Ctx) BvBin(op Op, a, b *Term) *Term {
 				}
 			}
 		}
+		// distribute over ite when both sides simplify
+		if b.IsConst() && b.Val > 1 && a.Op == OIte && w <= 64 {
+			ra := c.BvBin(op, a.Args[1], b)
+			rb := c.BvBin(op, a.Args[2], b)
+			simp := func(r *Term) bool { return !(r.Op == op && len(r.Args) == 2 && r.Args[1] == b) }
+			if simp(ra) && simp(rb) {
+				return c.Ite(a.Args[0], ra, rb)
+			}
+		}
+		// (x * k) / d = x * (k/d) and (x * k) % d = 0 when d divides k and the product cannot overflow
+		if b.IsConst() && b.Val > 1 && a.Op == OBvMul && w <= 64 {
+			for i := 0; i < 2; i++ {
+				k, x := a.Args[i], a.Args[1-i]
+				if k.IsConst() && k.Val != b.Val && k.Val%b.Val == 0 {
+					_, hi := c.URange(x)
+					h, l := bits.Mul64(hi, k.Val)
+					if h == 0 && l <= mask(w) {
+						if op == OBvUDiv {
+							return c.BvBin(OBvMul, x, c.Const(a.S, k.Val/b.Val))
+						}
+						return c.Const(a.S, 0)
+					}
+				}
+			}
+		}
 		// (x * k) / k = x and (x * k) % k = 0 when the product cannot overflow
 		if b.IsConst() && b.Val > 1 && a.Op == OBvMul && w <= 64 {
 			for i := 0; i < 2; i++ {
@@ -628,6 +653,12 @@ func (c *Ctx) BvBin(op Op, a, b *Term) *Term {
 					}
 				}
 			}
+		}
+	}
+	if op == OBvOr {
+		// OR of values occupying disjoint bit ranges (little-endian reassembly b0 | b1<<8 | ...) -> concat
+		if r := c.orAsConcat(a, b); r != nil {
+			return r
 		}
 	}
 	// commutative ordering
@@ -873,6 +904,11 @@ func (c *Ctx) Extract(a *Term, hi, lo int) *Term {
 		// bitwise ops distribute over extract; only do it when an argument is constant (keeps terms small)
 		if a.Args[0].IsConst() || a.Args[1].IsConst() {
 			return c.BvBin(a.Op, c.Extract(a.Args[0], hi, lo), c.Extract(a.Args[1], hi, lo))
+		}
+	case OBvMul, OBvAdd, OBvSub:
+		// the low n bits of a product / sum depend only on the low n bits of the operands
+		if lo == 0 {
+			return c.BvBin(a.Op, c.Extract(a.Args[0], hi, 0), c.Extract(a.Args[1], hi, 0))
 		}
 	case OBvShl:
 		// (x << k)[hi:lo] with const k
@@ -1291,4 +1327,102 @@ func Inline(t *Term, depth int) string {
 		n = fmt.Sprintf("op%d", t.Op)
 	}
 	return "(" + n + " " + strings.Join(parts, " ") + ")"
+}
+
+
+type bitSeg struct {
+	lo int
+	t  *Term
+}
+
+// segments describes t as non-zero pieces at bit offsets with zeros elsewhere; ok=false if unknown.
+func (c *Ctx) segments(t *Term, depth int) ([]bitSeg, bool) {
+	if depth > 6 {
+		return nil, false
+	}
+	switch t.Op {
+	case OConst:
+		if t.Val == 0 {
+			return nil, true
+		}
+		return nil, false
+	case OZExt:
+		in, ok := c.segments(t.Args[0], depth+1)
+		if ok {
+			return in, true
+		}
+		return []bitSeg{{0, t.Args[0]}}, true
+	case OConcat:
+		var segs []bitSeg
+		pos := t.S.W
+		for _, p := range t.Args {
+			pos -= p.S.W
+			if p.IsConst() && p.Val == 0 {
+				continue
+			}
+			segs = append(segs, bitSeg{pos, p})
+		}
+		return segs, true
+	case OBvShl:
+		if !t.Args[1].IsConst() {
+			return nil, false
+		}
+		k := int(t.Args[1].Val)
+		in, ok := c.segments(t.Args[0], depth+1)
+		if !ok {
+			return nil, false
+		}
+		var out []bitSeg
+		for _, sg := range in {
+			if sg.lo+k+sg.t.S.W > t.S.W {
+				return nil, false
+			}
+			out = append(out, bitSeg{sg.lo + k, sg.t})
+		}
+		return out, true
+	}
+	return nil, false
+}
+
+func (c *Ctx) orAsConcat(a, b *Term) *Term {
+	sa, ok := c.segments(a, 0)
+	if !ok || len(sa) == 0 {
+		return nil
+	}
+	sb, ok := c.segments(b, 0)
+	if !ok || len(sb) == 0 {
+		return nil
+	}
+	all := append(append([]bitSeg(nil), sa...), sb...)
+	// sort by lo descending
+	for i := 1; i < len(all); i++ {
+		for j := i; j > 0 && all[j].lo > all[j-1].lo; j-- {
+			all[j], all[j-1] = all[j-1], all[j]
+		}
+	}
+	w := a.S.W
+	var parts []*Term
+	pos := w
+	for _, sg := range all {
+		top := sg.lo + sg.t.S.W
+		if top > pos {
+			return nil // overlap
+		}
+		if top < pos {
+			gap := pos - top
+			if gap > 64 {
+				return nil
+			}
+			parts = append(parts, c.Const(BV(gap), 0))
+		}
+		parts = append(parts, sg.t)
+		pos = sg.lo
+	}
+	if pos > 0 {
+		if pos > 64 {
+			return nil
+		}
+		parts = append(parts, c.Const(BV(pos), 0))
+	}
+	return c.Concat(parts...)
 }
